@@ -230,6 +230,11 @@ def run(c, prog, ctx):
                 okg = okg and ("transaction::TxIn::has_issuance(arg2)", "true") in cd
             else:
                 okg = okg and ("^transaction::Transaction::has_witness(arg1)", "true") in cd
+        # ... and the encoder writes its conditional part under exactly the same condition (sibling agreement, both directions)
+        enc_conds = sorted(econd)
+        want_enc = [(("transaction::TxIn::has_issuance(arg1)", "true"),)] if what == "TxIn" else []
+        c.inst("R4.encoder-condition", what, enc_conds == want_enc,
+               "the encoder of %s writes conditional parts under %s; the size formula counts them under %s" % (what, enc_conds, want_enc), cf.where(), cl)
         c.inst("R4.condition-guards", what, okg and (len(labels) == (2 if what == "TxIn" else 1)),
                "issuance part must be under has_issuance(), witness part under the witness flag; found %s" % {str(k): v for k, v in labels.items()}, cf.where(), cl)
         c.sample({"rule": "R4", "closure": cl.split("::")[-1], "scaled": [summarize(s_un), summarize(s_cond)], "witness": summarize(u_cond)})
